@@ -274,6 +274,21 @@ PRED_FUNCS = {k: _mk_pred(k, v) for k, v in PREDICATES.items()}
 _VALIDATOR_CACHE = {}
 
 
+def vpred_partial_positive(x):
+    """Deliberately partial: raises TypeError for anything that does not compare with 0 (str, None, list, ...).  Only ever used
+    behind a guard that short-circuits it away for such objects."""
+    return x > 0
+
+
+def vpred_is_empty(x):
+    return len(x) == 0
+
+
+def vpred_partial_first_truthy(x):
+    """Deliberately partial: IndexError / TypeError / KeyError for empty or unsubscriptable objects."""
+    return bool(x[0])
+
+
 def _validator(v):
     """['is', name] | ['isinst', clsname] | ['iseq', litval] | ['inert', text] -> metadata object"""
     key = repr(v)
@@ -287,6 +302,20 @@ def _validator(v):
             obj = IsEqual[lit_value(v[1])]
         elif v[0] == 'inert':
             obj = v[1]
+        elif v[0] == 'guard':
+            # guard-style validators: a disjunction whose second operand is partial and is short-circuited away by the first
+            # for every object it would raise on, nested below a conjunction / negation (v[1] selects the shape, v[2] a total
+            # predicate): the whole validator is total under short-circuit evaluation
+            from beartype.vale import IsInstance as _II
+            c = Is[PRED_FUNCS[v[2]]]
+            if v[1] == 'or-and':
+                obj = (~_II[int] | Is[vpred_partial_positive]) & c
+            elif v[1] == 'not-or':
+                obj = ~(~_II[int] | Is[vpred_partial_positive])
+            elif v[1] == 'seq-or-and':
+                obj = (~_II[list] | Is[vpred_is_empty] | Is[vpred_partial_first_truthy]) & c
+            else:
+                raise ValueError(v)
         else:
             raise ValueError(v)
         _VALIDATOR_CACHE[key] = obj
@@ -303,6 +332,13 @@ def validator_holds(v, x):
             return bool(x == lit_value(v[1]))
         except Exception:
             return False
+    if v[0] == 'guard':
+        if v[1] == 'or-and':
+            return ((not isinstance(x, int)) or x > 0) and PRED_FUNCS[v[2]](x)
+        if v[1] == 'not-or':
+            return not ((not isinstance(x, int)) or x > 0)
+        if v[1] == 'seq-or-and':
+            return ((not isinstance(x, list)) or len(x) == 0 or bool(x[0])) and PRED_FUNCS[v[2]](x)
     return True  # inert metadata
 
 
@@ -754,6 +790,8 @@ def _leaf(hashable):
 _bear_validators = st.one_of(
     st.sampled_from(['truthy', 'short_repr', 'always', 'falsy']).map(lambda p: ['is', p]),
     st.sampled_from(['int', 'str', 'VBase', 'object']).map(lambda c: ['isinst', c]),
+    st.tuples(st.sampled_from(['or-and', 'not-or', 'seq-or-and']), st.sampled_from(['truthy', 'short_repr', 'always', 'falsy', 'never'])).map(
+        lambda t: ['guard', t[0], t[1]]),
 )
 # beartype documents that one Annotated must not mix its validators with foreign metadata
 _validator_lists = st.one_of(
